@@ -354,11 +354,14 @@ def release_reg_file(cases):
         "].\nEval vm_compute in (reg_diags cs).\n"
 
 def release_timer_file(cases):
-    def act(a):
-        return {"set": "TSet", "clear": "TClear %s" % nat(a[1]) if len(a) > 1 else "", "respond": "TRespond %s" % nat(a[1]) if len(a) > 1 else ""}[a[0]]
+    # ids are renumbered relative to the first id of the case (the counter is process-wide)
     def one(c):
-        return "(%s, %s)" % (nat(c["first_id"]), lst(["(%s, %s, %s)" % (act(s["act"]), zlit(s["cleared"]), zlit(s["waiting"])) for s in c["steps"]]))
-    return RELEASE_HEADER + "Definition cs : list (nat * list (taction * Z * Z)) := [\n" + ";\n".join(one(c) for c in cases) + \
+        base = int(c["first_id"]) - 1
+        def act(a):
+            if a[0] == "set": return "TSet"
+            return "%s %s" % ("TClear" if a[0] == "clear" else "TRespond", n(int(a[1]) - base))
+        return "(1, %s)" % lst(["(%s, %s, %s)" % (act(s["act"]), zlit(s["cleared"]), zlit(s["waiting"])) for s in c["steps"]])
+    return RELEASE_HEADER + "Definition cs : list (N * list (taction * Z * Z)) := [\n" + ";\n".join(one(c) for c in cases) + \
         "].\nEval vm_compute in (timer_diags cs).\n"
 
 def eval_release(run, prop_dir, cases, filefn, nsh_max=16):
